@@ -317,7 +317,13 @@ func printResourceList(rl v1.ResourceList) string {
 
 func (g *Plugin) getQuotaInfoUsedLimit(quotaInfo *core.QuotaInfo) v1.ResourceList {
 	if g.pluginArgs.EnableRuntimeQuota {
-		return quotaInfo.GetRuntime()
+		runtime := quotaInfo.GetRuntime()
+		// the runtime of the system and default quota is never calculated, RefreshRuntime regards their max as the
+		// runtime. An empty runtime must not be used as the limit, otherwise nothing is checked at all.
+		if len(runtime) == 0 && (quotaInfo.Name == extension.SystemQuotaName || quotaInfo.Name == extension.DefaultQuotaName) {
+			return quotaInfo.GetMax()
+		}
+		return runtime
 	}
 	return quotaInfo.GetMax()
 }
